@@ -239,7 +239,10 @@ fn silence_case(srv: &Srv, kind: &str) -> (Vec<(String, String)>, Value) {
 }
 
 /// two transfers one after the other from the SAME client endpoint: the second one must end as cleanly as the first
-fn reuse_case(srv: &Srv) -> Vec<(String, String)> {
+fn reuse_case(srv: &Srv, windowed: bool) -> Vec<(String, String)> {
+    // windowed: blksize 8 / windowsize 3 and only the first block of the first window acknowledged (C08: transmission resumes at k+1)
+    let opts: Vec<(String, String)> = if windowed { vec![("blksize".into(), "8".into()), ("windowsize".into(), "3".into())] } else { vec![] };
+    let ack_mode = if windowed { 4 } else { 0 };
     let mut viol = vec![];
     let data = body();
     let p = format!("{}/c07_file", srv.send_dir);
@@ -249,8 +252,8 @@ fn reuse_case(srv: &Srv) -> Vec<(String, String)> {
     let mut c = Client::new(srv.addr);
     for round in 1..=2 {
         c.reset_for_reuse();
-        let r = download_on(&mut c, srv, b"c07_file", &[], None, 0);
-        if !r.completed || r.data != data {
+        let r = download_on(&mut c, srv, b"c07_file", &opts, None, ack_mode);
+        if !r.completed || r.data != data || (windowed && !r.anomalies.is_empty()) {
             viol.push(("e2-reuse-failed".into(), format!("download #{round} from the same client endpoint: completed={} error={:?} anomalies={:?}", r.completed, r.error, &r.anomalies[..r.anomalies.len().min(3)])));
             break;
         }
@@ -388,7 +391,7 @@ pub fn cell(spec: &Value) -> Value {
             all.extend(v);
         }
         "reuse" => {
-            let v = reuse_case(&srv);
+            let v = reuse_case(&srv, spec["windowed"].as_bool().unwrap_or(false));
             c.executions += 1;
             c.states += 1;
             c.transitions += 8;
